@@ -43,7 +43,8 @@ ASSUMPTIONS = [
     "tick log must cover every sentinel pair (checked), so a broken reference is reported, not trusted",
     "a top-level def is only called from sites with no enclosing filter/buffer_filters, so a key is always rendered "
     "under the same ambient filter stack; sections sharing a key must have identical effective cache arguments and "
-    "ambient filters, otherwise the case is rejected (statement silent)",
+    "ambient filters, and no Template buffer_filters may be involved (a cached+buffered top-level def applies them "
+    "after the cache, a nested one not at all), otherwise the case is rejected (statement silent)",
     "an instance whose key equals the key of an enclosing instance being created is rejected (re-entrant "
     "get_or_create is backend defined; Beaker and dogpile hold a per-key lock)",
     "dogpile.cache's Mako plugin (third party) does not namespace keys by template, so with dogpile every template "
@@ -68,7 +69,9 @@ CASE_WALL_LIMIT_S = 300
 KEY_COLLISION = "cross-template-cache-collision"
 KEY_BEAKER_SET = "beaker-set-not-implemented"
 KEY_EARLY_INV = "early-invalidate-freezes-args"
+KEY_NESTED_BUF = "nested-cached-buffered-def-written"
 KNOWN_IDS = {
+    KEY_NESTED_BUF: "C17-nested-cached-buffered-written",
     KEY_COLLISION: "C17-module-id-collision",
     KEY_BEAKER_SET: "C17-beaker-set-unimplemented",
     KEY_EARLY_INV: "C17-early-invalidate-freezes-args",
@@ -523,8 +526,14 @@ class TState:
         return _int_timeout(d)
 
     def share_class(self, sec):
-        return (tuple(sec["ambient"]), sec["buffered"] and bool(self.rec["buffer_filters"]),
-                tuple(sorted((k, str(v)) for k, v in self.eff_args(sec).items())))
+        """Two different sections may serve each other's entries only inside one class (else the case is rejected).
+
+        Where Template buffer_filters are involved (a buffered section, or anything inside one) the text that
+        reaches the output is the stored content plus post-processing that depends on the kind of section, and the
+        statement says nothing about entries moving between such sections: those never share."""
+        if self.rec["buffer_filters"] and (sec["buffered"] or "BF" in sec["ambient"]):
+            return ("solo", sec["sid"])
+        return (tuple(sec["ambient"]), tuple(sorted((k, str(v)) for k, v in self.eff_args(sec).items())))
 
     def owner_args(self, key):
         """Arguments a caller passes to reach the backend partition that holds `key`."""
@@ -1012,8 +1021,44 @@ def _probe_cases():
     return out
 
 
+NESTED_BUF_TEXTS = {
+    # (a cached+buffered def returns its content: DESIGN A3/A21, filtering.rst "Buffering", test_cache.test_buffered)
+    "nested": '<%def name="d()"><%def name="n()" cached="True" buffered="True">INNER</%def><% r = n() %>[${r}]</%def>${d()}',
+    "control_toplevel": '<%def name="n()" cached="True" buffered="True">INNER</%def><%def name="d()"><% r = n() %>[${r}]</%def>${d()}',
+    "control_uncached": '<%def name="d()"><%def name="n()" buffered="True">INNER</%def><% r = n() %>[${r}]</%def>${d()}',
+}
+
+
+def _probe_nested_buffered():
+    """By-construction expectation, no model: the captured return value of a buffered def is its content."""
+    core.setup_repo()
+    _register()
+    from mako.template import Template
+
+    got = {}
+    for which, text in sorted(NESTED_BUF_TEXTS.items()):
+        for enabled in (True, False):
+            t = Template(text, uri="/vf17_%d_%d/nb_%s.html" % (os.getpid(), next(_uniq), which), cache_impl="vf17rec",
+                         cache_enabled=enabled)
+            t._vf_store, t._vf_log = {}, []
+            got[(which, enabled)] = [t.render_unicode(), t.render_unicode()]
+    case = {"probe": KEY_NESTED_BUF, "templates": NESTED_BUF_TEXTS}
+    bad = {k: v for k, v in got.items() if v != ["[INNER]", "[INNER]"]}
+    if not bad:
+        return None
+    ctl = {k: v for k, v in bad.items() if k[0] != "nested"}
+    if ctl:
+        return Failure(case, "control templates of the nested-buffered probe: expected '[INNER]' twice, observed %r"
+                       % (ctl,), "cached-buffered-def-not-returned")
+    return Failure(case, "nested def cached+buffered, called as <%% r = n() %%>[${r}]: expected '[INNER]' on every render "
+                   "(a buffered def returns its content; the top-level and the uncached nested control do), observed %r "
+                   "keyed (template, cache_enabled); text %r" % (bad, NESTED_BUF_TEXTS["nested"]), KEY_NESTED_BUF)
+
+
 def run_probe(name, case=None):
     """-> Failure | None.  A probe fails with its own key only if its control history passes."""
+    if name == KEY_NESTED_BUF:
+        return _probe_nested_buffered()
     pc, ctl = _probe_cases()[name]
     case = case or dict(pc, probe=name)
     body = {k: v for k, v in case.items() if k != "probe"}
@@ -1123,10 +1168,13 @@ def shard_search(task):
     return ev, fails
 
 
+PROBES = (KEY_COLLISION, KEY_BEAKER_SET, KEY_EARLY_INV, KEY_NESTED_BUF)
+
+
 def run(ctx):
     part = getattr(ctx, "part", None)
     if part in (None, "probes"):
-        for name in (KEY_COLLISION, KEY_BEAKER_SET, KEY_EARLY_INV):
+        for name in PROBES:
             f = run_probe(name)
             ctx.ev.case(key=["probe", name], nontrivial=True, labels=("probe:" + name,))
             if f is not None:
